@@ -74,8 +74,7 @@ def state_tags(case):
 
 
 def run_state_family(ctx, cases, what):
-    with multiprocessing.get_context("fork").Pool(ctx.workers) as pool:
-        res = pool.map(statedrv.execute, cases, chunksize=max(1, len(cases) // (ctx.workers * 8)))
+    res = ctx.pool().map(statedrv.execute, cases, chunksize=max(1, min(100, len(cases) // (ctx.workers * 4))))
     traces = []
     for c, (tr, err) in zip(cases, res):
         if err:
